@@ -74,7 +74,19 @@ def run(sid, tier="quick", extra=()):
         sh(f"git -C /repo worktree remove --force {wt}")
         shutil.rmtree(wt, ignore_errors=True)
         shutil.rmtree(out, ignore_errors=True)
-    with open(os.path.join(d, f"result.{tier}.json"), "w") as fh:
+    # keep what other checks said about this change on the same repository head (sibling checks
+    # are run separately from the property's own check)
+    rp = os.path.join(d, f"result.{tier}.json")
+    if os.path.exists(rp):
+        try:
+            old = json.load(open(rp))
+            if old.get("repo_head") == result.get("repo_head") and old.get("patch_applies"):
+                for cid, v in old.get("checks", {}).items():
+                    result["checks"].setdefault(cid, v)
+                result["caught_by"] = sorted(c for c, v in result["checks"].items() if v["exit"] == 1)
+        except Exception:
+            pass
+    with open(rp, "w") as fh:
         json.dump(result, fh, indent=1)
     print(json.dumps({k: v for k, v in result.items() if k != "checks"}),
           {c: (v["exit"], v["violation_lines"]) for c, v in result.get("checks", {}).items()})
